@@ -118,6 +118,7 @@ func splitRespectingQuotes(text string, delimiter byte) []string {
 var (
 	backslashEscape = regexp.MustCompile(`\\(.)`)
 	unescapedComma  = regexp.MustCompile(`(?:\\.|[^,])+`)
+	unescapedPlus   = regexp.MustCompile(`(?:\\.|[^+])+`)
 )
 
 func unescapeQuoted(text string) string {
@@ -127,10 +128,14 @@ func unescapeQuoted(text string) string {
 // extractCN extracts the CN value from an RFC 4514 or similar DN string.
 func extractCN(subject string) string {
 	// Split on unescaped commas
-	for _, part := range unescapedComma.FindAllString(subject, -1) {
-		part = strings.TrimSpace(part)
-		if len(part) > 3 && strings.EqualFold(part[:3], "CN=") {
-			return part[3:]
+	for _, rdn := range unescapedComma.FindAllString(subject, -1) {
+		// A multi-valued RDN joins its attribute=value pairs with an
+		// unescaped '+' (RFC 4514 section 2.2): CN=alice+OU=eng.
+		for _, part := range unescapedPlus.FindAllString(rdn, -1) {
+			part = strings.TrimSpace(part)
+			if len(part) > 3 && strings.EqualFold(part[:3], "CN=") {
+				return part[3:]
+			}
 		}
 	}
 	return ""
